@@ -56,6 +56,15 @@ def _build(cfg):
             # the decoder is elaborated (e.g. a partial system is simulated) and extended afterwards
             from amaranth.hdl import Fragment
             Fragment.get(dec, None)
+        if cfg.get("refuse_after") == i:
+            # an add() the memory map refuses (explicit address out of bounds) in between: must leave no trace
+            rb = wishbone.Interface(addr_width=1, data_width=cfg["dw"], granularity=cfg["gran"], path=(f"refused{i}",))
+            rb.memory_map = MemoryMap(addr_width=1 + _log2(cfg["dw"] // cfg["gran"]), data_width=cfg["gran"])
+            try:
+                dec.add(rb, addr=1 << (cfg["aw"] + _log2(cfg["dw"] // cfg["gran"])))
+                raise AssertionError("out-of-bounds window accepted")
+            except ValueError:
+                pass
     return dec, subs
 
 
@@ -72,7 +81,8 @@ def configs(tier, seed):
         aw = rnd.randint(2, 6 if tier == "quick" else 8) if tries % 25 else rnd.choice([12, 20, 30])
         feat = [f for f in FEATS if rnd.random() < 0.5]
         cfg = {"aw": aw, "dw": dw, "gran": gran, "feat": feat, "align": rnd.choice([0, 0, 0, 1, 2, 3]), "subs": [],
-               "staged": rnd.choice([None, None, 1, 2]), "enum": rnd.random() < 0.4}
+               "staged": rnd.choice([None, None, 1, 2]), "enum": rnd.random() < 0.4,
+               "refuse_after": rnd.choice([None, None, 0, 1])}
         for i in range(rnd.randint(0 if rnd.random() < 0.05 else 1, 3 if tier == "quick" else 4)):
             sparse = rnd.random() < 0.35
             if sparse:
